@@ -15,7 +15,8 @@ LEVEL = "exploration"
 RULE = ("metamorphic pairs (P, T(P)): P a seeded well-typed project (isogen profiles core/plain/keys, biased to projects "
         "whose entrypoints reach nested client fields), T a composition of 1-3 meaning-preserving rearrangements from "
         "pylib/isomut.py: permute every selection set; repeat a scalar selection (same field and arguments) under a second "
-        "alias; move a subset of a reachable client field's selections (with the variables they use) into a new client "
+        "alias; replace a selection with a literal argument by a new parameterised client field whose parameter is named "
+        "like one of the parent's variables (names are local: a collision must not matter); move a subset of a reachable client field's selections (with the variables they use) into a new client "
         "field on the same type selected at the same place; inline a variable-free client field. Both are compiled by the "
         "real isograph_cli; for every entrypoint the bytes of query_text.ts and normalization_ast.ts must be equal. "
         "Non-trivial: the transformation changed a declaration reachable from an entrypoint and both compiles succeeded; "
@@ -41,6 +42,9 @@ def _case(spec):
     try:
         p = isogen.generate(spec["seed"], spec["profile"], **spec.get("opts", {}))
         rng = random.Random(subseed(spec["seed"], "c15"))
+        if spec["seed"] % 2 == 0:
+            # richer base program: the same field selected with a variable and with a literal at one place
+            p = isomut.add_literal_sibling(p, rng) or p
         q, applied = p, []
         for _ in range(rng.randint(1, 3)):
             t = rng.choice(isomut.TRANSFORMS)
@@ -109,7 +113,7 @@ def _case(spec):
 
 def run(ctx):
     cli = runner.build_cli()
-    n = ctx.pick(100, 7000)
+    n = ctx.pick(200, 7000)
     specs = []
     for prof, opts in (("core", {}), ("plain", {"max_decls": 8}), ("keys", {"max_decls": 8})):
         for i in range(n):
